@@ -15,8 +15,11 @@ def run(ctx):
         rnd = random.Random(ctx.seed)
         singles = [c for c in cases if len(c["w"]) <= 1 or all(d[0] in RPC for d in c["w"])]
         pairs = [c for c in cases if not (len(c["w"]) <= 1 or all(d[0] in RPC for d in c["w"]))]
+        # (a planting that changes nothing by itself only shows together with another one: those pairs always run)
+        context = [c for c in pairs if any(d[0] == "weather_jmf" for d in c["w"])]
+        pairs = [c for c in pairs if not any(d[0] == "weather_jmf" for d in c["w"])]
         rnd.shuffle(pairs)
-        cases = singles + pairs[:1500]
+        cases = singles + context + pairs[:1500]
         ctx.exhaustive = False
     else:
         ctx.exhaustive = True
